@@ -346,21 +346,26 @@ Proof.
   apply filter_all_false. intros r Hr. apply filter_In in Hr as [_ Hn]. apply negb_true_iff in Hn. exact Hn.
 Qed.
 
+Lemma sat_fold_range mem_ks ins : forall acc, 0 <= acc < two64 ->
+  0 <= fold_left (fun acc p => sat_add64 acc (match find_ks (p_ks p) mem_ks with Some k => k_fee k | None => 0 end)) ins acc < two64.
+Proof.
+  induction ins as [|p r IH]; intros acc Ha; cbn [fold_left]; [exact Ha|].
+  apply IH. unfold sat_add64, two64 in *. lia.
+Qed.
+
 Lemma tx_fees_nonneg mem_ks ins : 0 <= tx_fees mem_ks ins.
 Proof.
-  unfold tx_fees. apply Z.div_pos; [|lia].
-  assert (H : forall l acc, 0 <= acc -> 0 <= fold_left (fun acc p => add64 acc (match find_ks (p_ks p) mem_ks with Some k => k_fee k | None => 0 end)) l acc).
-  { induction l as [|p l IH]; intros acc Ha; cbn [fold_left]; [exact Ha|]. apply IH. apply add64_range. }
-  specialize (H ins 0 (Z.le_refl 0)). lia.
+  unfold tx_fees. cbv zeta. pose proof (sat_fold_range mem_ks ins 0 ltac:(unfold two64; lia)) as H.
+  match goal with |- context [if ?b then _ else _] => destruct b end; [apply Z.div_pos; lia|].
+  assert (0 <= fold_left (fun acc p => sat_add64 acc (match find_ks (p_ks p) mem_ks with Some k => k_fee k | None => 0 end)) ins 0 / 1000) by (apply Z.div_pos; lia). lia.
 Qed.
 
 Lemma tx_fees_small mem_ks ins : tx_fees mem_ks ins < two61.
 Proof.
-  unfold tx_fees.
-  assert (H : forall l acc, 0 <= acc < two64 -> 0 <= fold_left (fun acc p => add64 acc (match find_ks (p_ks p) mem_ks with Some k => k_fee k | None => 0 end)) l acc < two64).
-  { induction l as [|p l IH]; intros acc Ha; cbn [fold_left]; [exact Ha|]. apply IH. apply add64_range. }
-  specialize (H ins 0). unfold two64, two61 in *. assert (H' : 0 <= 0 < 18446744073709551616) by lia. specialize (H H').
-  apply Z.div_lt_upper_bound; lia.
+  unfold tx_fees. cbv zeta. pose proof (sat_fold_range mem_ks ins 0 ltac:(unfold two64; lia)) as H.
+  set (s := fold_left (fun acc p => sat_add64 acc (match find_ks (p_ks p) mem_ks with Some k => k_fee k | None => 0 end)) ins 0) in *.
+  assert (Hd : s / 1000 < 18446744073709552) by (apply Z.div_lt_upper_bound; unfold two64 in *; lia).
+  unfold two61. destruct (s mod 1000 =? 0); lia.
 Qed.
 
 (* what an accepted melt burns covers the quote's commitment, in true integers *)
